@@ -40,9 +40,7 @@ CLASS_STATE_WRITERS: Dict[Tuple[str, str], str] = {
 }
 LOG_CLASSES = {"SysLog", "AgentLog", "PacketCapture", "_SimOutput", "PrimaiteIO", "_JSONFilter", "_NotJSONFilter"}
 DYNAMIC_CENSUS_EXPECTED = {
-    ("src/primaite/__init__.py", "self.__class__.__dict__"),
-    ("src/primaite/__init__.py", "getattr(self, p)"),
-    ("src/primaite/simulator/system/services/terminal/terminal.py", "getattr(self, key)"),
+    ("src/primaite/__init__.py", "self.__class__.__dict__"),  # read-only scan of property names in _PrimaitePaths
 }
 TRANSITIONS = {"power_on", "power_off", "reset"}
 
@@ -100,7 +98,7 @@ def r4_1(ctx: Ctx) -> None:
     ctx.floor("R4.1", "class-level / singleton stores", n, 10)
     census = {(p, t) for p, _, t in dynamic_feature_census(ix)}
     extra = census - DYNAMIC_CENSUS_EXPECTED
-    ctx.record("R4.1", "src/primaite::<package>::dynamic-feature census (setattr / exec / __dict__ / non-literal getattr)", "", not extra,
+    ctx.record("R4.1", "src/primaite::<package>::dynamic-feature census (setattr / delattr / exec / eval / globals / __dict__)", "", not extra,
                f"{len(census)} known sites, none writes attributes dynamically" if not extra else
                f"new dynamic attribute access {sorted(extra)[:3]}: who-may-write inventories are no longer sound")
 
